@@ -30,6 +30,13 @@ def generate(rng, seed, index, tier):
     kw = gen.gen_params(rng, spec, x0, y0, p_knob=0.45, reporting=False, globalized=False)
     kw["iteration_limit"] = int(rng.choice([0, 1, 2, 3, 10, 30, 200, 600], p=[0.03, 0.04, 0.04, 0.09, 0.2, 0.25, 0.25, 0.1]))
     clock = gen.gen_clock(rng, n=3000, kind=str(rng.choice(["const", "tick", "random", "stall-jump"], p=[0.15, 0.2, 0.3, 0.35])))
+    if rng.random() < 0.3:
+        clock["gap_before_solve"] = float(rng.choice([0.5, 10.0, 1e4]))
+    if rng.random() < 0.12:
+        # C02 quantifies over all starts: also starts outside the variable box
+        import numpy as np
+
+        x0 = np.asarray(x0, float) + np.round(rng.normal(size=spec["n"]) * 2, 3)
     if rng.random() < 0.5:
         kw["time_limit"] = float(rng.choice([0.05, 0.5, 5.0, 50.0]))
     if fam == "unbounded" and rng.random() < 0.5:
@@ -52,8 +59,8 @@ def status_check(ex, prop=ID, sub=None):
     if not finite_result(r):
         out.append(V(prop, "nonfinite", "status %s with non-finite x, y or d" % st, sub, ctx))
         return out
-    if (r.x < um.xl).any() or (r.x > um.xu).any():
-        out.append(V(prop, "bounds", "status %s but returned x violates the variable bounds" % st, sub, ctx))
+    if um.in_bounds(ex.x0) and ((r.x < um.xl).any() or (r.x > um.xu).any()):
+        out.append(V(prop, "bounds", "status %s but returned x violates the variable bounds (the start satisfied them)" % st, sub, ctx))
     lim = prm.iteration_limit
     if lim is not None:
         if r.iterations > lim or len(ex.trials) != r.iterations:
@@ -67,7 +74,7 @@ def status_check(ex, prop=ID, sub=None):
         # the deadline is time_limit after the solve began: the reference origin is the solver's
         # own timer start (a clock read made inside solve()), or, should the code not read the
         # clock there, the virtual time at which solve() was called
-        starts = [v for (w, v) in reads if is_timer_start(w)]
+        starts = [v for i, (w, v) in enumerate(reads) if is_timer_start(w) and i >= ex.reads_at_begin]
         origin = starts[0] if starts else ex.t_begin
         ok = False
         if np.isfinite(prm.time_limit):
